@@ -72,11 +72,25 @@ def run(tier, report):
                                'form (loose keys+bytes, index rows, pack bytes, handle state); every distinct state gets the full view '
                                'battery through a fresh and the acting handle')
     explore(spec, report)
+    if tier != 'quick' and not report.violations:
+        # the same search with the internal batch-size thresholds lowered (different lookup strategies on the same states)
+        from ..report import Report
+        spec3 = Spec(tier)
+        spec3.depth = 3
+        spec3.thresholds = (1, 3)
+        sub = Report('C02', tier, LEVEL)
+        explore(spec3, sub)
+        report.violations += sub.violations
+        for k in ('states', 'transitions', 'traces_validated_against_impl', 'states_checked'):
+            report.coverage[k] += sub.coverage[k]
+        report.coverage['lowered_threshold_pass'] = sub.coverage['per_root']
+        report.coverage['exhaustive'] = report.coverage['exhaustive'] and sub.coverage['exhaustive']
     if tier == 'quick' and not report.violations:
         # second root (non-initial start) at a smaller depth
         spec2 = Spec('quick')
         spec2.depth = 2
         spec2._roots = spec2._roots2
+        spec2.thresholds = (1, 3)       # multi-chunk IN queries / sorted full scan on 2-4 keys
         from ..report import Report
         sub = Report('C02', tier, LEVEL)
         explore(spec2, sub)
